@@ -17,7 +17,7 @@ func Run(r *fw.Run) {
 	r.Assume = []string{"finite quotient of hypothetical pods as in C06",
 		"documented omission: a rule peer whose pod and namespace selectors are matchLabels-only, non-empty (nil namespaceSelector = policy namespace) and satisfied by an existing workload in a namespace whose labels satisfy the namespace part"}
 	if r.Quick() {
-		r.SetBudget(150 * time.Second)
+		r.SetBudget(300 * time.Second)
 	} else {
 		r.SetBudget(30 * time.Minute)
 	}
